@@ -168,6 +168,20 @@ pub fn c01(tier: &str) -> Vec<Family> {
     };
     let sc3: Vec<Scenario> = (0..4).map(|k| scn(format!("concurrent#{}", k), &cs, mk(k))).collect();
     fams.push(Family::new("concurrent_models", TAGS_TIME, sc3).cap(if tier == "quick" { 30_000 } else { 2_000_000 }));
+    // Every request kind with past / present / future deadlines (the scenario
+    // set of C08), judged on the chronology clauses: nothing pending at or
+    // before the current time, everything fires exactly at its deadline.
+    let mut boundary = c08(tier);
+    let mut f = boundary.remove(0);
+    f.name = "deadline_boundaries";
+    f.tags = TAGS_TIME;
+    f.hang_is_violation = false;
+    // Zero-period requests are C08's business (a hang there is not a C01 verdict).
+    f.scenarios.retain(|s| !s.label.contains("Periodic(0)") && !s.label.contains("tag22") && !s.label.contains("tag24")
+        && !s.label.contains("tag28") && !s.label.contains("tag30") && !s.label.contains("tag34") && !s.label.contains("tag36")
+        && !s.label.contains("tag40") && !s.label.contains("tag42") && !s.label.contains("tag46") && !s.label.contains("tag48")
+        && !s.label.contains("tag52") && !s.label.contains("tag54"));
+    fams.push(f);
     fams
 }
 
@@ -908,7 +922,8 @@ pub fn c09(tier: &str) -> Vec<Family> {
         .script(5, vec![Op::Cancel { slot: 0 }])
         .script(6, vec![Op::CancelClone { slot: 1 }])
         .script(7, vec![sched_self(SKind::KeyedPeriodic(1), When::Rel(1), 1, 2)])
-        .script(8, vec![Op::Cancel { slot: 2 }]);
+        .script(8, vec![Op::Cancel { slot: 2 }])
+        .script(9, vec![Op::DropAuto { slot: 1 }]);
     let b = NodeSpec::new("B", 2).script(5, vec![Op::Cancel { slot: 0 }]).script(1, vec![Op::ReadTime]);
     let mut spec = BenchSpec::new(vec![a, b]);
     spec.srcs = vec![vec![to(0)], vec![to(1)]];
@@ -926,6 +941,7 @@ pub fn c09(tier: &str) -> Vec<Family> {
         CancelClone { slot: 1 },
         IntoAuto { slot: 1 },
         DropAuto { slot: 1 },
+        KeepClone { slot: 1, to: 5 },
         Step,
         StepUntil(When::Abs(2)),
         ProcEvent { node: 0, tag: 7, val: 8 },
@@ -977,7 +993,42 @@ pub fn c09(tier: &str) -> Vec<Family> {
             }
         }
     }
+    // Auto keys dropped while other owners of the key exist: a kept clone, or
+    // an occurrence of the periodic action in flight (dropped by a handler).
+    let mut sc3 = vec![];
+    for (ki, sched) in [
+        Sched { node: 0, kind: SKind::Keyed, when: When::Abs(2), tag: 1, val: 60, slot: 1 },
+        Sched { node: 0, kind: SKind::KeyedPeriodic(1), when: When::Abs(2), tag: 1, val: 61, slot: 1 },
+        SchedSrc { src: 0, kind: SKind::KeyedPeriodic(1), when: When::Abs(2), tag: 1, val: 62, slot: 1 },
+    ]
+    .into_iter()
+    .enumerate()
+    {
+        sc3.push(scn(format!("auto/kind{}/clone_kept", ki), &spec, vec![sched.clone(), KeepClone { slot: 1, to: 5 }, IntoAuto { slot: 1 }, DropAuto { slot: 1 }, StepUntil(When::Abs(4))]));
+        sc3.push(scn(format!("auto/kind{}/clone_kept_after_first", ki), &spec, vec![sched.clone(), KeepClone { slot: 1, to: 5 }, IntoAuto { slot: 1 }, StepUntil(When::Abs(2)), DropAuto { slot: 1 }, StepUntil(When::Abs(4))]));
+        // Dropped by an earlier same-time event of the same model (tag 9).
+        sc3.push(scn(
+            format!("auto/kind{}/dropped_by_handler", ki),
+            &spec,
+            vec![
+                Sched { node: 0, kind: SKind::Once, when: When::Abs(3), tag: 9, val: 63, slot: 9 },
+                sched.clone(),
+                IntoAuto { slot: 1 },
+                StepUntil(When::Abs(5)),
+            ],
+        ));
+        sc3.push(scn(
+            format!("auto/kind{}/dropped_by_own_handler", ki),
+            &spec,
+            vec![
+                Sched { node: 0, kind: SKind::KeyedPeriodic(1), when: When::Abs(2), tag: 9, val: 64, slot: 1 },
+                IntoAuto { slot: 1 },
+                StepUntil(When::Abs(5)),
+            ],
+        ));
+    }
     vec![
+        Family::new("auto_keys", &["cancel_ignored", "sched_missed", "sched_dup", "sched_wrong_time"], sc3).cap(cap),
         Family::new(
             "cancellation_sequences",
             &["cancel_ignored", "sched_missed", "sched_dup", "sched_wrong_time"],
